@@ -96,6 +96,11 @@ Proof.
     destruct (negb allow && h); try discriminate. destruct res; try discriminate. injection Hbb as <- _. simpl. eauto.
 Qed.
 
+(* the v20 _Observable check that object references name members of the enclosing container does not
+   concern this property *)
+Definition refs_needless (c : cls) (s : slot) : bool :=
+  match cfamily c, cver c with FSco, V20 => objref_free s | _, _ => true end.
+
 Section CompObj.
   Variable vr : variant.
   Variable ev : env.
@@ -114,7 +119,6 @@ Section CompObj.
   Variables c sc : cls.
   Hypothesis Hnames : unodup (map sname (cslots c)) = true.
   Hypothesis Hdef : forall s, In s (cslots c) -> default_wf s = true.
-  Hypothesis Hrefs : refs_trivial c = true.
 
   Variable mem : list (ustring * jvalue).
   Variable n0 : nat.
@@ -124,6 +128,8 @@ Section CompObj.
                    kind_accepts (skind s) (skind s') = true /\ kind_complete2 (skind s) = true /\
                    jin_ok (skind s') v = true /\ valid_kind sp pok n0 (skind s') v = true.
   Hypothesis Hnd : NoDup (map fst mem).
+  (* no given member is an object reference of a 2.0 observable (a directly constructed one has no container) *)
+  Hypothesis Hrefs : forall k v s, In (k, v) mem -> find_slot c k = Some s -> refs_needless c s = true.
 
   (* the value the constructor stores for a property that was not given: its default *)
   Definition stored_default (s : slot) (x : pval) : Prop :=
@@ -151,13 +157,13 @@ Section CompObj.
     apply andb_true_iff in B. destruct B as [B _]. rewrite B. reflexivity.
   Qed.
 
-  Lemma refs_ok_tt s vrefs v : In s (cslots c) -> refs_ok c s vrefs v = Ok tt.
+  Lemma refs_ok_free s vrefs v : refs_needless c s = true -> refs_ok c s vrefs v = Ok tt.
   Proof.
-    intros Hs. unfold refs_ok. unfold refs_trivial in Hrefs.
+    intros Hr. unfold refs_ok. unfold refs_needless in Hr.
     destruct (cfamily c); auto. destruct (cver c); auto. destruct vrefs; auto.
-    rewrite forallb_forall in Hrefs. specialize (Hrefs s Hs). unfold objref_free in Hrefs.
-    destruct (skind s) as [| | | | | | | | | | | | | | | | | | | | | |k0| |]; try discriminate Hrefs; auto.
-    destruct k0; try discriminate Hrefs; destruct v; auto.
+    unfold objref_free in Hr.
+    destruct (skind s) as [| | | | | | | | | | | | | | | | | | | | | |k0| |]; try discriminate Hr; auto.
+    destruct k0; try discriminate Hr; destruct v; auto.
   Qed.
 
   (* one property *)
@@ -198,7 +204,7 @@ Section CompObj.
       assert (St : (match v with JNull => setting | JArr [] => setting | _ => aset n (PJ v) setting end) = aset n (PJ v) setting).
       { destruct v as [| | | | |l|]; try reflexivity; try contradiction. destruct l; [contradiction|reflexivity]. }
       rewrite St. unfold check_property, default_value. fold n. rewrite alookup_aset_same. cbn [bind fst snd].
-      unfold clean_present. fold n. rewrite alookup_aset_same. rewrite Hc. rewrite (refs_ok_tt s vrefs pv Hs). cbn [bind].
+      unfold clean_present. fold n. rewrite alookup_aset_same. rewrite Hc. rewrite (refs_ok_free s vrefs pv (Hrefs n v s (alookup_In _ _ _ Ev) Hfs)). cbn [bind].
       exists (aset n pv (aset n (PJ v) setting)). split; [reflexivity|].
       assert (Epv : ent_ok n pv).
       { unfold ent_ok. rewrite Ev. exists s, s'. split; auto. split; auto. split; auto. split; auto. split; auto.
@@ -226,7 +232,7 @@ Section CompObj.
         destruct (skind s) eqn:Ek; try discriminate Hdw. cbn [bind fst snd].
         unfold clean_present. fold n. rewrite alookup_aset_same. rewrite Ek. cbn [clean_kind].
         cbn [jvalue_eqb]. rewrite ustr_eqb_refl.
-        rewrite (refs_ok_tt s vrefs _ Hs). cbn [bind].
+        rewrite (refs_ok_free s vrefs _ ltac:(unfold refs_needless, objref_free; rewrite Ek; destruct (cfamily c), (cver c); reflexivity)). cbn [bind].
         exists (aset n (PJ (JStr v)) (aset n (PJ (JStr v)) setting)). split; [reflexivity|].
         assert (Eq : forall k, alookup k (aset n (PJ (JStr v)) (aset n (PJ (JStr v)) setting)) = alookup k (aset n (PJ (JStr v)) setting)).
         { intros k. destruct (ustr_eqb k n) eqn:E.
@@ -253,7 +259,7 @@ Section CompObj.
         destruct (skind s) eqn:Ek; try discriminate Hdw. cbn [bind fst snd].
         unfold clean_present. fold n. rewrite alookup_aset_same. rewrite Ek. cbn [clean_kind].
         unfold validate_id. rewrite ustr_prefix_app. cbn [negb]. rewrite udrop_app. rewrite uuid4_ok. cbn [bind].
-        rewrite (refs_ok_tt s vrefs _ Hs). cbn [bind].
+        rewrite (refs_ok_free s vrefs _ ltac:(unfold refs_needless, objref_free; rewrite Ek; destruct (cfamily c), (cver c); reflexivity)). cbn [bind].
         eexists. split; [reflexivity|].
         assert (Eq : forall k pvv, alookup k (aset n pvv (aset n pvv setting)) = alookup k (aset n pvv setting)).
         { intros k pvv. destruct (ustr_eqb k n) eqn:E.
@@ -267,7 +273,7 @@ Section CompObj.
       + (* a constant *)
         destruct j; try discriminate Hdw. destruct (skind s) eqn:Ek; try discriminate Hdw. cbn [bind fst snd].
         unfold clean_present. fold n. rewrite alookup_aset_same. rewrite Ek. cbn [clean_kind clean_bool].
-        rewrite (refs_ok_tt s vrefs _ Hs). cbn [bind].
+        rewrite (refs_ok_free s vrefs _ ltac:(unfold refs_needless, objref_free; rewrite Ek; destruct (cfamily c), (cver c); reflexivity)). cbn [bind].
         eexists. split; [reflexivity|].
         assert (Eq : forall k pvv, alookup k (aset n pvv (aset n pvv setting)) = alookup k (aset n pvv setting)).
         { intros k pvv. destruct (ustr_eqb k n) eqn:E.
